@@ -18,17 +18,16 @@ def build_kani():
         {"key": "rate_limiter.RateLimiter", "file": SRC, "kind": "struct", "name": "RateLimiter", "rules": ["attrs"]},
         {"key": "rate_limiter.new", "file": SRC, "kind": "impl_fn", "self_ty": "RateLimiter<T>", "name": "new", "rules": ["attrs"]},
         {"key": "rate_limiter.enqueue", "file": SRC, "kind": "impl_fn", "self_ty": "RateLimiter<T>", "name": "enqueue", "rules": ["attrs"]},
+        # the whole inherent impl is what gets compiled (so private helper methods a refactoring introduces come along); the two
+        # entries above only locate the functions under contract for the evidence
+        {"key": "rate_limiter.impl", "file": SRC, "kind": "impl", "self_ty": "RateLimiter<T>", "rules": ["attrs"]},
     ])
     with open(os.path.join(HERE, "env.rs")) as f:
         text = "// generated on every run from /repo by vx; do not edit\n" + f.read()
     text += "\n// ---- extracted verbatim (only #[instrument] dropped) ----\n"
     text += ex["rate_limiter.RateLimiter"]["text"]
-    text += "impl<T> RateLimiter<T>\nwhere\n    T: Eq + Copy + Hash,\n{\n"
-    for k in ["rate_limiter.new", "rate_limiter.enqueue"]:
-        it = ex[k]
-        text += f"    // src={it['file']}:{it['line_start']}-{it['line_end']}\n"
-        text += f"    {it['vis']} {it['sig']} -> {it['ret']}\n" + "\n".join("    " + ln for ln in it["body"].split("\n")) + "\n"
-    text += "}\n"
+    it = ex.pop("rate_limiter.impl")
+    text += f"// src={it['file']}:{it['line_start']}-{it['line_end']}\n" + it["text"] + "\n"
     with open(os.path.join(HERE, "harness.rs")) as f:
         text += f.read()
     return kanilib.write_crate(NAME, text), ex
